@@ -28,7 +28,9 @@ NOT_DECIDED = ["float rounding of recurring slots (bounded stage only)", "asynco
 EXPLANATION = ("TaskManager.install_task/suspend_task/get_next_task are verified against contracts over the abstract view of the heap (set of (time, "
                "sequence, task) entries) plus the representation invariant; ordering, ties, suspension, re-installation and recurring slots are lemmas "
                "(client programs); the deferred-call drain loops of run and run_once are verified as contracts on those blocks: every queued function "
-               "is called exactly once in submission order whichever members raise.")
+               "is called exactly once in submission order whichever members raise. TaskManager.process_task (firing): the callback runs once, a recurring task is installed "
+               "again once, and for one-shot tasks whose callback may install the task again the flag isScheduled says exactly whether the task is queued (so a later "
+               "re-install moves it and a suspend removes it), the other entries untouched.")
 LEVEL_TEXT = ("Proof for all times/clock readings and every subset of raising functions, bounded in structure (heaps <= 4 entries, batches <= 4 "
               "functions): the returned task is the minimum (due time, installation order) entry, never early, removed on return; suspended tasks "
               "never fire; re-installing moves; recurring tasks hit successive multiples strictly after installation (exact reals); every deferred "
